@@ -60,6 +60,8 @@ def receipts_harness(prop, tier, seed, cov, log):
     for l in lines:
         verdict = l.split()[1]
         if verdict == 'ok' or verdict in seen: continue
+        # C08 asks of the receipt path only that no client can stop it for the others or block a handler
+        if prop == 'C08' and verdict not in ('receipt-worker-stopped', 'submission-blocked'): continue
         seen.add(verdict)
         k = [e for e in known if e['cause'] == verdict]
         if k:
@@ -161,6 +163,8 @@ def grid_harness(prop, tier, seed, cov, log):
     first_diff = None
     def report(cause, block, upto, detail, suffix=''):
         if cause in seen: return
+        # C08 asks of the ground-plane index only that no well-formed input crashes or wedges it
+        if prop == 'C08' and cause not in ('operation-panics', 'operation-never-returns', 'grid-harness'): return
         seen.add(cause)
         k = [e for e in known if e['cause'] == cause]
         if k:
